@@ -164,7 +164,7 @@ func (w *world) apply(o op) (a applied) {
 		a.shape = fmt.Sprintf("remove,peers%d,pending%d", len(x.spec.Peers), minInt(len(x.spec.Pending), 1))
 	}
 	// the server refreshes the statistics in the store records of the stores involved
-	for s := uint64(1); s <= 8; s++ {
+	for s := uint64(1); s <= 8 && !w.noRefresh; s++ {
 		if a.stores[s] {
 			w.refresh(s)
 		}
@@ -191,6 +191,10 @@ func tailStack() string {
 
 func sizeClass(n int) string {
 	switch {
+	case n > 16383:
+		return "16384+"
+	case n > 2000:
+		return "02001-16383"
 	case n <= 2:
 		return "000-002"
 	case n <= 7:
@@ -408,7 +412,16 @@ func (p *prober) randTarget(w *world) (string, uint64, [][2]hexkey) {
 // full: the broad comparison. complete = every probe key and (for alphabets up to 25 keys) every
 // boundary pair; otherwise a seeded sample of them.
 func (p *prober) full(w *world, complete bool) []*probe {
-	ps := []*probe{{Kind: "counts"}, {Kind: "avg"}, {Kind: "ids", MaxID: p.g.prof.MaxID}}
+	ps := []*probe{{Kind: "counts"}, {Kind: "avg"}}
+	if p.g.prof.MaxID <= 1500 {
+		ps = append(ps, &probe{Kind: "ids", MaxID: p.g.prof.MaxID})
+	} else {
+		// big worlds: a sample of ids, the whole set once, and the content of all objects
+		for i := 0; i < 200; i++ {
+			ps = append(ps, &probe{Kind: "getregion", ID: uint64(1 + p.rng.Intn(int(p.g.prof.MaxID)))})
+		}
+		ps = append(ps, &probe{Kind: "allregions"}, &probe{Kind: "metacount"}, &probe{Kind: "content"})
+	}
 	for s := uint64(1); s <= 9; s++ { // 9: a store that never has peers
 		ps = append(ps, &probe{Kind: "store", Store: s}, &probe{Kind: "storeset", Store: s}, &probe{Kind: "storeinfo", Store: s})
 	}
@@ -455,8 +468,15 @@ func (p *prober) full(w *world, complete bool) []*probe {
 		}
 		pairs = append(pairs, pair{s, e})
 	}
+	lims := []int{0, 1, 2, n}
+	if n > 90 {
+		lims = append(lims, 16, 99, 100, 101, 127, 128, 129) // around page sizes and the index node capacity
+	}
+	if n > 900 {
+		lims = append(lims, 1000, 1023, 1024, 1025)
+	}
 	for _, pr := range pairs {
-		lim := []int{0, 1, 2, n}[p.rng.Intn(4)]
+		lim := lims[p.rng.Intn(len(lims))]
 		ps = append(ps, &probe{Kind: "scan", Start: pr.s, End: pr.e, Limit: 0})
 		if lim != 0 {
 			ps = append(ps, &probe{Kind: "scan", Start: pr.s, End: pr.e, Limit: lim})
@@ -549,8 +569,19 @@ func runHistory(r *ev.Run, prof profile, seed int64, sample bool) bool {
 		o := queue[0]
 		queue = queue[1:]
 		ops = append(ops, o)
+		quiet := n < prof.Quiet
+		w.noRefresh = quiet
 		a := w.apply(o)
+		w.noRefresh = false
 		f := a.fail
+		if quiet && f == nil && n%32 != 31 {
+			r.Eval(1)
+			w.count("ops_loaded_quietly", 1)
+			if len(w.m.es) > maxRegions {
+				maxRegions = len(w.m.es)
+			}
+			continue
+		}
 		run := func(ps []*probe) {
 			for _, pb := range ps {
 				if f != nil {
@@ -621,12 +652,19 @@ func reproduces(ops []op, f *failure, seed int64) (bool, *failure, *world) {
 
 func shrink(ops []op, f *failure, seed int64) []op {
 	cur := append([]op(nil), ops...)
-	budget := 4000000 // op applications
+	budget := 4000000 // op applications (weighted by the size of the world: the model is linear)
+	weight := 1
+	for _, o := range ops {
+		if o.Note == "prefill" {
+			weight++
+		}
+	}
+	weight = 1 + weight/100
 	try := func(cand []op) bool {
 		if budget <= 0 {
 			return false
 		}
-		budget -= len(cand) + 50
+		budget -= (len(cand) + 50) * weight
 		ok, _, _ := reproduces(cand, f, seed)
 		return ok
 	}
@@ -724,25 +762,42 @@ func profiles(r *ev.Run, rng *rand.Rand) []profile {
 				NearEach: near, FullEach: full, CompleteEach: complete}
 		}
 	}
+	huge := func(keys, spread, ops, full int) func() profile {
+		return func() profile {
+			// thousands of regions: the main index and the per-store sub-indexes have two (quick) or
+			// three (thorough) levels; loaded like a start-up does, then a history on the populated cache
+			k := keys + rng.Intn(spread)
+			return profile{Name: "huge", Keys: k, MaxID: uint64(k + 100), Ops: k + ops, Quiet: k, Prefill: true, Stores: 2 + rng.Intn(2), Density: 0.9, MacroEach: 150,
+				NearEach: near, FullEach: full, CompleteEach: 1 << 30}
+		}
+	}
 	if r.Thorough() {
 		add(20, small(20000, 100, 2000))
 		add(4, medium(20000, 200, 4000))
 		add(2, large(20000, 400, 5000))
 	} else {
-		add(120, small(2000, 50, 500))
+		add(100, small(2000, 50, 500))
 		add(16, medium(2000, 100, 1000))
 		add(4, large(2000, 250, 1000))
 	}
 	rng.Shuffle(len(out), func(i, j int) { out[i], out[j] = out[j], out[i] })
+	// exactly one huge world per run (quick: on the last shard), in front
+	if r.Thorough() {
+		out = append([]profile{huge(16600, 3000, 300, 150)()}, out...)
+	} else {
+		out = append([]profile{huge(2600, 800, 600, 200)()}, out...)
+	}
 	return out
 }
 
 func main() {
 	r := ev.New("C07", "exploration")
-	r.Rule("one case = one operation of a seeded random history applied to core.BasicCluster and to the slice model, followed by the comparison of pd's answers with linear scans. Every operation: region counts, average size, per-store counters/sizes of every touched store; every operation (thorough) or every 4th (quick): lookups, overlap/adjacent/scan queries around the touched range, store region sets, one random-pick probe; periodically: sampled and complete sweeps (every probe key = boundary key, its predecessor/successor byte strings and the empty key; every boundary pair for alphabets up to 25 keys; every store; every cached region; random-pick soundness and coverage). Histories: region ids 1..40 over 6-24 boundary keys on 8 stores (small), 40-120 keys on 4-8 stores (medium), 300-700 keys with a fully covered key space on 2-4 stores (large: per-store sub-indexes are multi-level btrees); target densities 0.15-0.8 regions per boundary interval; voter/learner roles, leader or none, pending/down peers, sizes 0..1000, regions built by NewRegionInfo or RegionFromHeartbeat. distinct = profile x operation kind x number of displaced regions x which of {range, peers, leader, pending, size} changed x unbounded/no-leader/pending flags x log2(live regions). btree sub-check: random insert/replace/delete/delete-min/max/clone/clear histories for degrees 2..64 against a sorted slice; distinct = degree x live trees x size bucket x levels x operation.")
+	r.Rule("SEQUENTIAL: one case = one operation of a seeded random history applied to ONE long-lived core.BasicCluster and to the slice model, followed by the comparison of pd's answers with linear scans. Every operation: region counts, average size, per-store counters/sizes and the statistics published into the store records (UpdateStoreStatus, refreshed for every touched store the way the server does), content of the cached object; every operation (thorough) or every 4th (quick): lookups, overlap/adjacent/scan queries around the touched range, store region sets, one random-pick probe; periodically: sampled and complete sweeps (every probe key, every boundary pair for alphabets up to 25 keys, scan limits around 16/99-101/127-129/1000-1025 in big worlds, every store, every cached region, every object handed out earlier must be unchanged, random-pick soundness and coverage). Region objects are built by NewRegionInfo, RegionFromHeartbeat, or get-edit-set: Clone(options) of the object obtained from the cache (targeted options for single conf changes); puts go through PutRegion or CheckAndPutRegion (stale epochs are generated on purpose; a rejected put must change nothing). Store-wide bursts (all leaders / peers / pending marks of a store leave and return) make single sub-indexes shrink to nothing and grow again. Worlds: ids 1..40 over 6-24 boundary keys on 8 stores (small), 40-120 keys (medium), 300-700 keys fully covered on 2-4 stores (large), one world of ~3000 (quick) / ~17000-20000 (thorough) regions loaded like a start-up with prefix-related key names (huge: two / three index levels). distinct = profile x operation kind x displaced regions x construction path x entry point x which of {range, peers, leader, pending, size} changed x flags x log2(live regions). CONCURRENT (free-running goroutines, race detector on): (1) one write stream (puts, removals, store-record refreshes) || 3 readers issuing single-call queries of every kind incl. PreCheckPutRegion, (1b) a free-running stream of leader transfers / size changes / re-insertions || readers of the getters that combine several index reads, (2) two concurrent streams of cache drops (GetRegion+RemoveRegion, as DropCacheRegion does under the cluster read lock) || readers; one case = one read, judged against every state it can have observed (writes finished before its call .. writes begun before its return, by logical ticks); distinct = family x query kind x sub-call x number of candidate states; a complete sweep follows at quiescence. BTREE sub-check: random insert/replace/delete/delete-min/max/clone/clear and drain-to-empty/refill bursts for degrees 2..64 against a sorted slice; distinct = degree x live trees x size bucket x levels x operation.")
 	r.Assume("core.BasicCluster and its RegionsInfo are driven directly (PutRegion / RemoveRegion with the region's current information, the only way the code base removes); no heartbeat admission logic is involved (that is C06)")
 	r.Assume("generated regions stay inside the zone the statement defines: start < end or unbounded end, at most one peer per store, the leader is a voter of the region or absent, pending and down peers are peers of the region; inverted query ranges and 'adjacent' probes that partially overlap cached regions are not judged (skipped_ambiguous)")
 	r.Assume("a random pick 'within key ranges' means a region lying completely inside one of the ranges (the documented behaviour, asserted by the repository's own tests); a pick may return nothing; coverage: every member of a candidate set of size 1..8 must be drawn within 400*|set| draws (for a uniform pick over the index range a miss has probability < 1e-13 per set)")
+	r.Assume("concurrency respects what a server can do: at most one goroutine writes regions at a time except for cache drops (RemoveRegion), which may overlap each other; readers use BasicCluster methods only (RegionsInfo-only getters under the exported cluster read lock); interleavings are whatever the Go scheduler produces, no verdict depends on timing; a read whose window spans more than 64 state combinations is not judged")
+	r.Assume("the statistics in a store record (GetStore(id).GetLeaderCount() ...) are judged against what was published at the last refresh of that store, never against the live counters (the server refreshes only the stores of the new and the old peers, so records of other stores may lag by design)")
 	r.Assume("pd's random picks use math/rand's global source, re-seeded by the harness per history; the reference model, its key order (bytewise) and the sorted-slice mirror of the btree are trusted")
 	if r.Replay != "" {
 		replay(r, r.Replay)
@@ -771,8 +826,12 @@ func main() {
 		if !ok {
 			break
 		}
-		if !r.Thorough() && r.Shards > 1 && i%r.Shards != r.Shard {
-			continue // quick tier split over processes (shards_quick): each takes a share of its own list
+		if !r.Thorough() && r.Shards > 1 {
+			// quick tier split over processes (shards_quick): each takes a share of its own list;
+			// the huge world (index 0) runs on the last shard only
+			if (i == 0 && r.Shard != r.Shards-1) || (i > 0 && i%r.Shards != r.Shard) {
+				continue
+			}
 		}
 		if !runHistory(r, prof, seeds[i], i < 3) {
 			ok = false
